@@ -51,8 +51,16 @@ func TestHookConformance(t *testing.T) {
 			case 3:
 				c.Steps = append(c.Steps, sim.NStep{K: "commits", View: uint64(rapid.IntRange(0, 3).Draw(t, "view"))})
 			default:
-				c.Steps = append(c.Steps, sim.NStep{K: "cand", Kind: rapid.SampledFrom([]string{"PP", "P", "C", "VC", "NV"}).Draw(t, "kind"), From: rapid.IntRange(0, 8).Draw(t, "from"),
-					A: rapid.IntRange(0, 15).Draw(t, "ca"), B: rapid.IntRange(0, 15).Draw(t, "cb")})
+				st := sim.NStep{K: "cand", Kind: rapid.SampledFrom([]string{"PP", "P", "C", "VC", "NV"}).Draw(t, "kind"), From: rapid.IntRange(0, 8).Draw(t, "from"),
+					A: rapid.IntRange(0, 15).Draw(t, "ca"), B: rapid.IntRange(0, 15).Draw(t, "cb")}
+				if st.Kind == "VC" {
+					// votes without a scripted proof only: a scripted proof may certify ANOTHER block for the very view the node itself
+					// is prepared in (the harness holds all other keys). Which of two certificates of one view an elected leader then
+					// re-proposes depends on Go's map iteration order inside the library - in both paths, independently - and would
+					// show up here as drift although the hooks are not involved (seen once, at seed 42)
+					st.B = 0
+				}
+				c.Steps = append(c.Steps, st)
 			}
 		}
 		// path A: VerifNode
